@@ -34,10 +34,10 @@ def why(term, ns, x, depth=0):  # noqa: C901
                         return w
         elif k in ("cls", "struct"):
             fields = [(f[0], f[1]) for f in term.fields]
-            isdict = (term.isdict() if k == "cls" else term.name in ("TD", "TDnr"))
+            isdict = (term.isdict() if k == "cls" else term._cls is dict)
             if isdict:
                 if isinstance(x, dict):
-                    req = term.required() if k == "cls" else getattr(term, "_required", ("a", "b"))
+                    req = term.required() if k == "cls" else ns[term.name].__required_keys__
                     for r in req:
                         if r not in x:
                             return term, "missing-required-key"
